@@ -94,15 +94,16 @@ func (m *machine) registerReplacements() {
 		"(*time.Ticker).Stop": "TickerStop",
 		"time.Tick":           "TimeTick",
 
-		"context.Background":    "CtxBackground",
-		"context.TODO":          "CtxBackground",
-		"context.WithCancel":    "CtxWithCancel",
-		"context.WithTimeout":   "CtxWithTimeout",
-		"context.WithDeadline":  "CtxWithDeadline",
-		"context.WithValue":     "CtxWithValue",
-		"context.WithoutCancel": "CtxWithoutCancel",
-		"context.Cause":         "CtxCause",
-		"context.AfterFunc":     "CtxAfterFunc",
+		"context.Background":      "CtxBackground",
+		"context.TODO":            "CtxBackground",
+		"context.WithCancel":      "CtxWithCancel",
+		"context.WithTimeout":     "CtxWithTimeout",
+		"context.WithDeadline":    "CtxWithDeadline",
+		"context.WithValue":       "CtxWithValue",
+		"context.WithoutCancel":   "CtxWithoutCancel",
+		"context.Cause":           "CtxCause",
+		"context.WithCancelCause": "CtxWithCancelCause",
+		"context.AfterFunc":       "CtxAfterFunc",
 	} {
 		m.replace(name, repl)
 	}
